@@ -66,8 +66,46 @@ def closure_of_arg(f, op):
     return None
 
 
+
+def reader_never_blocks(P, res, rule="READER-NEVER-BLOCKS"):
+    """the connection's reader thread is the only one that can read an `interrupt` or `close`, so nothing it calls directly
+    may wait on a session: no bounded-channel send (SyncSender::send blocks when the queue is full), no recv, no join, no
+    sleep. (Functions it hands to thread::spawn run on other threads and are not followed.) Shared by C30 and C31."""
+    E = P.edges()
+    root = "nrepl::handle_message"
+    if root not in P.funcs:
+        raise M.MissingAnchor(root)
+    seen = {root}
+    st = [root]
+    while st:
+        x = st.pop()
+        for k, tgt, bi in E.get(x, []):
+            if k == "call" and tgt in P.funcs and tgt.startswith("nrepl::") and tgt not in seen:
+                seen.add(tgt)
+                st.append(tgt)
+    BLOCKING = ("SyncSender::<T>::send", "Receiver::<T>::recv", "Receiver::<T>::recv_timeout", "JoinHandle::<T>::join",
+                "std::thread::sleep", "std::thread::park", "Condvar::wait", "Barrier::wait")
+    n = 0
+    for p_ in sorted(seen):
+        f = P.funcs[p_]
+        for bi, t in f.calls():
+            nm = M.callee_name(t) or ""
+            if "mpsc" in nm or "thread::" in nm or "Condvar" in nm:
+                n += 1
+            if nm.endswith(BLOCKING):
+                res.bad(rule, "%s # %s" % (p_, nm.split("::")[-1]),
+                        "%s, which runs on the connection's reader thread, calls %s: with a bounded queue or a wait the reader stops reading, and the "
+                        "`interrupt` / `close` that would end the running eval is never seen (and no later request gets its `done`)" % (p_, nm), f.loc(t["span"]))
+    res.ok(rule, "nothing the reader thread calls directly can wait on a session (%d functions, %d channel/thread operations looked at)" % (len(seen), n))
+    res.floor(rule, "channel / thread operations on the reader thread", n, 3)
+
+
 def run(ctx, res):
     P = ctx.P
+    reader_never_blocks(P, res)
+    # interrupts are addressed by session id: two live sessions must never share one (FRESH-ID, shared with C30)
+    from . import c30 as _c30
+    _c30.fresh_id(P, res, rule="FRESH-ID")
     # ---- RESET-ON-DEQUEUE ----------------------------------------------------------
     w = P.require_fn("nrepl::session_worker")
     recvs = [bi for bi, t in w.calls() if (M.callee_name(t) or "").endswith("Receiver::<T>::recv")]
